@@ -17,6 +17,7 @@ CONSTANTS
   UPDENDS = {}
   MAXUPD = 0
   ADDS = {}
+  MAXSTAKE = 0
   SECONDBAD = FALSE
   FAILBUDGET = 99
 VIEW View
